@@ -1,5 +1,6 @@
 CONFIG = dict(
-    coqfiles=["Props/C15.v"],
+    coqfiles=["Props/C15.v", "Props/C15P.v"],
+    sub=["C15P"],
     n_quick=12000, n_thorough=400000,
     rule="4 of 5 cases: a decorator program (0-3 ops quick, 0-4 thorough, from CloneStream/CloneCopy (kept half L or R, sibling consumed by a "
          "random method in its own goroutine) / WithTask (nil or failing) / WithErrorHandler) over one of 6 buffer kinds (CAS byte slice, proto, "
